@@ -235,6 +235,19 @@ def shard_macres(_, tier):
             if n:
                 cases.append((["macres_eq %s %s" % (H(base), H(base[:-1]))], ["FFT"], None))
                 cases.append((["macres_eq %s %s" % (H(base), H(base + base[-1:]))], ["FFT"], None))
+    # unequal lengths whose difference is a multiple of 2^8 / 2^16 (a length compared in a narrower type), the shorter one a prefix of
+    # the longer, in both orders; and long equal / single-difference codes
+    for n in (0, 1, 16, 32, 64):
+        for extra in (256, 512, 65536, 65536 + 256):
+            a, b_ = pat(5, 0, n), pat(5, 0, n + extra)
+            cases.append((["macres_eq %s %s" % (H(a) if n else "h:", P(5, 0, n + extra))], ["FFT"], None))
+            cases.append((["macres_eq %s %s" % (P(5, 0, n + extra), H(a) if n else "h:")], ["FFT"], None))
+            cases.append((["macres_eq %s %s" % (H(bytes(n)) if n else "h:", P(0, 0, n + extra))], ["FFT"], None))
+    for n in (255, 256, 257, 65536):
+        cases.append((["macres_eq %s %s" % (P(5, 0, n), P(5, 0, n))], ["TTF"], None))
+        m = bytearray(pat(5, 0, n))
+        m[n - 1] ^= 1
+        cases.append((["macres_eq %s %s" % (P(5, 0, n), H(bytes(m)))], ["FFT"], None))
     ck.run(cases)
     ck.stats.states = len(cases)
     return ck.stats
